@@ -47,6 +47,13 @@ def scenarios(rep, tier, seed):
         scn = K.random_scenario(rng, "unsup" if i % 2 else "knn", metric=["pearson", "neyman", "kullback_leibler", "k_divergence"][i % 4], nq=rng.randrange(4, 10), positive=True, mode="metric")
         scn["allow_asymmetric"] = True
         scns.append(scn)
+    # the fitted model predicts after save -> load into an object built with another metric
+    rng5 = random.Random(seed * 1000003 + 1414)
+    for i in range(160 if thorough else 36):
+        scn = K.random_scenario(rng5, "unsup" if i % 2 else "knn", metric=["euclidean", "manhattan", "chebyshev", "squared_euclidean", "gower", "lorentzian"][i % 6], nq=12, mode="metric")
+        scn["history"] = ["reload"] if i % 3 else ["prepredict", "reload"]
+        scn["prefit"] = None
+        scns.append(scn)
     # KNN-supervised on pre-computed matrices with permuted index arrays (queries = rows of the matrix)
     for i in range(400 if thorough else 60):
         scn = K.knn_pre_scenario(rng, metric=rng.choice(mets), lattice=(i % 3 == 0))
